@@ -159,6 +159,22 @@ func init() {
 	externals["time.runtimeNano"] = func(fr *frame, a []value) value {
 		return fr.i.val(fr.i.env.clock(), types.Int64)
 	}
+	// wall-clock reading of a model time: the model keeps one fixed wall second and lets the
+	// monotonic reading carry all differences, so UnixNano is "a 2026 instant + monotonic offset"
+	// (no division; overflow behaviour against MaxInt64 as for real present-day instants)
+	externals["(time.Time).UnixNano"] = func(fr *frame, a []value) value {
+		i := fr.i
+		tv, ok := a[0].(structure)
+		if !ok || len(tv) < 2 {
+			i.abort(abortUnsupported, "UnixNano on a non-model time")
+		}
+		if w, ok := tv[0].(uint64); !ok || w&hasMonotonic == 0 {
+			i.abort(abortUnsupported, "UnixNano on a time without monotonic reading (not produced by the clock model)")
+		}
+		st := i.st
+		const base = int64(1_790_000_000_000_000_000) - (1 << 41)
+		return i.val(st.Add(st.BV(64, uint64(base)), i.term(tv[1])), types.Int64)
+	}
 	externals["time.runtimeIsBubbled"] = func(fr *frame, a []value) value { return false }
 	externals["time.Sleep"] = func(fr *frame, a []value) value {
 		e := fr.i.env
